@@ -4,6 +4,7 @@
     [None] = constructor error). *)
 From TU Require Import Base C01_Model C01_Proofs C01_Check.
 From Coq Require Import Permutation.
+From TU Require Import UAX29_Model C01_UAX29.
 Open Scope N_scope.
 
 (** [String::from_utf8] after UTF-8 encoding is the identity (lossless encoding of every scalar string). *)
@@ -168,4 +169,97 @@ Example char_witness :
     /\ over_alphabet A false (split_input (b_sv b) [97;98;60;112;97;100;62;98] false) [] = true
     /\ char_tokenize b A unk false [97;98;60;112;97;100;62;98] false [] = Some [0;1;2;1]
     /\ char_tokenize b A unk false [97;99] true [] = Some [0;3].
+Proof. cbv zeta. eexists. split; [vm_compute; reflexivity|]. vm_compute. repeat split. Qed.
+
+(** ** Grapheme mode with the segmenter inside the model (UAX29_Model.segment, tied to the crate
+    unicode-segmentation by the correspondence [uax29_agree]).  [char_tokenize_u b A unk s ign] is the
+    character tokenizer in grapheme mode computing its own oracle: [oracle_u true segs] = [segment r] for
+    every regular segment [r] of the special-token split.  No premise on a segmentation is left. *)
+
+(** one id per cluster of [segment] of every regular segment and one per special token, plus prefix and
+    suffix; parsing off: #ids = #prefix + #clusters of [segment s] + #suffix; never an error *)
+Theorem char_len_u : forall A tokens unk pad prefix suffix b s ign,
+  char_base A tokens unk pad prefix suffix = Some b ->
+  exists ids, char_tokenize_u b A unk s ign = Some ids /\
+    length ids = (length prefix + n_chars_u (split_input (b_sv b) s ign) + length suffix)%nat
+    /\ (ign = true -> length ids = (length prefix + length (segment s) + length suffix)%nat).
+Proof. exact char_len_u_l. Qed.
+Print Assumptions char_len_u.
+
+(** parsing off: the body is [char_id] of the clusters of [segment s]; every cluster that is not a single
+    code point (every joined cluster) gets the unknown id, which is a special id *)
+Theorem char_body_u : forall A tokens unk pad prefix suffix b s,
+  char_base A tokens unk pad prefix suffix = Some b ->
+  exists u, sp_id (b_off b) (b_sv b) unk = Some u /\ N.of_nat (length A) <= u
+    /\ char_body b A unk true s true (oracle_u true (split_input (b_sv b) s true))
+       = Some (map (char_id A u) (segment s))
+    /\ (forall c, (length c <> 1)%nat -> char_id A u c = u).
+Proof. exact char_body_u_l. Qed.
+Print Assumptions char_body_u.
+
+(** code points of grapheme category Any never join: one cluster per code point.  This is the fact the
+    oracle premise [over_alphabet] used to hide ("printable ASCII never joins" is the instance
+    [printable_any]); it is a decidable condition on the alphabet alone *)
+Theorem segment_any_singletons : forall s : list N, forallb is_any s = true -> segment s = singletons s.
+Proof. exact segment_any. Qed.
+Print Assumptions segment_any_singletons.
+
+Theorem printable_any : forall A, forallb printable_ascii A = true -> alphabet_any A = true.
+Proof. exact printable_alphabet_any. Qed.
+Print Assumptions printable_any.
+
+(** the alphabet of the real tokenizer (the list the harness reads from get_vocab and hands to the model):
+    95 distinct printable ASCII code points, all of category Any *)
+Theorem chars_alphabet_any :
+  forallb printable_ascii chars_alphabet = true /\ alphabet_any chars_alphabet = true
+  /\ NoDup chars_alphabet /\ length chars_alphabet = 95%nat.
+Proof. exact chars_alphabet_ok. Qed.
+Print Assumptions chars_alphabet_any.
+
+(** round trip in grapheme mode: alphabet of category Any, every code point of every regular segment in the
+    alphabet (the special-token spellings need not be) => decoding gives the text back *)
+Theorem char_roundtrip_u : forall A tokens unk pad prefix suffix b s ign,
+  char_base A tokens unk pad prefix suffix = Some b ->
+  (ign = false -> Forall (fun t => t <> []) (b_sv b)) ->
+  alphabet_any A = true ->
+  regs_over A (split_input (b_sv b) s ign) = true ->
+  exists ids, char_tokenize_u b A unk s ign = Some ids
+    /\ char_decode b A ids false = Some (concat prefix ++ s ++ concat suffix)
+    /\ char_decode b A (middle b ids) false = Some s.
+Proof. exact char_roundtrip_u_l. Qed.
+Print Assumptions char_roundtrip_u.
+
+(** the plain reading: printable-ASCII alphabet, every code point of the text in the alphabet *)
+Theorem char_roundtrip_text_u : forall A tokens unk pad prefix suffix b s ign,
+  char_base A tokens unk pad prefix suffix = Some b ->
+  (ign = false -> Forall (fun t => t <> []) (b_sv b)) ->
+  forallb printable_ascii A = true ->
+  forallb (in_A A) s = true ->
+  exists ids, char_tokenize_u b A unk s ign = Some ids
+    /\ char_decode b A ids false = Some (concat prefix ++ s ++ concat suffix)
+    /\ char_decode b A (middle b ids) false = Some s.
+Proof. exact char_roundtrip_text_l. Qed.
+Print Assumptions char_roundtrip_text_u.
+
+(** the oracle computed by the model meets the model's own consistency test and the correspondence
+    test; an input accepted by [uax29_agree] carries, for every regular segment, the model's own
+    segmentation of the text that cluster list spells *)
+Theorem oracle_u_ok : forall g segs,
+  oracle_okb segs (oracle_u g segs) = true /\ oracle_checked g (oracle_u g segs) = true.
+Proof. intros g segs. split; [apply oracle_u_okb|apply oracle_u_checked]. Qed.
+Print Assumptions oracle_u_ok.
+
+Theorem uax29_agree_sound : forall v, uax29_agree v = true ->
+  Forall (fun o => o = seg_of (v_bool (v_nth 1 v)) (concat o)) (v_list (v_list v_str) (v_nth 12 v)).
+Proof. exact uax29_agree_sound_l. Qed.
+Print Assumptions uax29_agree_sound.
+
+(** Non-vacuity: the real alphabet, default tokens, text "ab <pad>c!" parsed in grapheme mode: premises of
+    [char_roundtrip_u] hold; "e U+0301 x" gives the unknown id for the joined cluster *)
+Example char_u_witness :
+  let A := chars_alphabet in let toks := [[60;112;97;100;62]] in let unk := [60;117;62] in
+  exists b, char_base A toks unk [60;112;97;100;62] [] [] = Some b
+    /\ regs_over A (split_input (b_sv b) [97;98;32;60;112;97;100;62;99;33] false) = true
+    /\ char_tokenize_u b A unk [97;98;32;60;112;97;100;62;99;33] false = Some [0;1;94;95;2;63]
+    /\ char_tokenize_u b A unk [101;769;120] true = Some [96;23].
 Proof. cbv zeta. eexists. split; [vm_compute; reflexivity|]. vm_compute. repeat split. Qed.
